@@ -181,6 +181,103 @@ theorem errorsIs_travel (memo : Bool) (hops : List Hop) (e : GoErr) (t : Nat) :
     errorsIs true (travel true memo hops e).err t = errorsIs true e t := by
   unfold travel; rw [errorsIs_foldl_hop]
 
+/-! ### an interrupt and a node failure meet -/
+
+theorem firstFailure_some_of_mem (hu : Bool) (ts : List (Key × Option GoErr))
+    (h : ∃ k e, (k, some e) ∈ ts ∧ isInterrupt hu e = false) :
+    ∃ k e, (k, some e) ∈ ts ∧ isInterrupt hu e = false ∧ firstFailure hu ts = some (k, e) := by
+  induction ts with
+  | nil => obtain ⟨k, e, hm, _⟩ := h; simp at hm
+  | cons t rest ih =>
+    obtain ⟨k0, r0⟩ := t
+    cases r0 with
+    | none =>
+      obtain ⟨k, e, hm, hi⟩ := h
+      have hm' : (k, some e) ∈ rest := by
+        rcases List.mem_cons.mp hm with h1 | h1
+        · cases h1
+        · exact h1
+      obtain ⟨k', e', h1, h2, h3⟩ := ih ⟨k, e, hm', hi⟩
+      exact ⟨k', e', List.mem_cons_of_mem _ h1, h2, by simpa [firstFailure] using h3⟩
+    | some e0 =>
+      by_cases hi0 : isInterrupt hu e0 = true
+      · obtain ⟨k, e, hm, hi⟩ := h
+        have hm' : (k, some e) ∈ rest := by
+          rcases List.mem_cons.mp hm with h1 | h1
+          · cases h1; rw [hi0] at hi; cases hi
+          · exact h1
+        obtain ⟨k', e', h1, h2, h3⟩ := ih ⟨k, e, hm', hi⟩
+        exact ⟨k', e', List.mem_cons_of_mem _ h1, h2, by simpa [firstFailure, hi0] using h3⟩
+      · have hi0' : isInterrupt hu e0 = false := by simpa using hi0
+        exact ⟨k0, e0, by simp, hi0', by simp [firstFailure, hi0']⟩
+
+theorem firstFailure_none_of_no_failure (hu : Bool) (ts : List (Key × Option GoErr))
+    (h : ∀ k e, (k, some e) ∈ ts → isInterrupt hu e = true) : firstFailure hu ts = none := by
+  induction ts with
+  | nil => rfl
+  | cons t rest ih =>
+    obtain ⟨k0, r0⟩ := t
+    have ih' := ih (fun k e hm => h k e (List.mem_cons_of_mem _ hm))
+    cases r0 with
+    | none => simpa [firstFailure] using ih'
+    | some e0 =>
+      have := h k0 e0 (by simp)
+      simpa [firstFailure, this] using ih'
+
+/-- whatever the completion order: if a task really failed, the eager loop (drain checked) reports
+    the wrapped error of a task that really failed -/
+theorem eagerRun_failure_wins (hu : Bool) (point : Key → Bool) (ts : List (Key × Option GoErr))
+    (h : ∃ k e, (k, some e) ∈ ts ∧ isInterrupt hu e = false) :
+    ∃ k e, (k, some e) ∈ ts ∧ isInterrupt hu e = false ∧ eagerRun hu true point ts = .failed (wrapNode hu k e) := by
+  induction ts with
+  | nil => obtain ⟨k, e, hm, _⟩ := h; simp at hm
+  | cons t rest ih =>
+    obtain ⟨k0, r0⟩ := t
+    cases r0 with
+    | none =>
+      obtain ⟨k, e, hm, hi⟩ := h
+      have hm' : (k, some e) ∈ rest := by
+        rcases List.mem_cons.mp hm with h1 | h1
+        · cases h1
+        · exact h1
+      by_cases hp : point k0 = true
+      · obtain ⟨k', e', h1, h2, h3⟩ := firstFailure_some_of_mem hu rest ⟨k, e, hm', hi⟩
+        exact ⟨k', e', List.mem_cons_of_mem _ h1, h2, by simp [eagerRun, hp, drainAtInterrupt, h3]⟩
+      · obtain ⟨k', e', h1, h2, h3⟩ := ih ⟨k, e, hm', hi⟩
+        exact ⟨k', e', List.mem_cons_of_mem _ h1, h2, by simpa [eagerRun, hp] using h3⟩
+    | some e0 =>
+      by_cases hi0 : isInterrupt hu e0 = true
+      · obtain ⟨k, e, hm, hi⟩ := h
+        have hm' : (k, some e) ∈ rest := by
+          rcases List.mem_cons.mp hm with h1 | h1
+          · cases h1; rw [hi0] at hi; cases hi
+          · exact h1
+        obtain ⟨k', e', h1, h2, h3⟩ := firstFailure_some_of_mem hu rest ⟨k, e, hm', hi⟩
+        exact ⟨k', e', List.mem_cons_of_mem _ h1, h2, by simp [eagerRun, hi0, drainAtInterrupt, h3]⟩
+      · have hi0' : isInterrupt hu e0 = false := by simpa using hi0
+        exact ⟨k0, e0, by simp, hi0', by simp [eagerRun, hi0']⟩
+
+/-- without a real failure the loop never reports one -/
+theorem eagerRun_no_failure (hu dc : Bool) (point : Key → Bool) (ts : List (Key × Option GoErr))
+    (h : ∀ k e, (k, some e) ∈ ts → isInterrupt hu e = true) :
+    eagerRun hu dc point ts = .interrupted ∨ eagerRun hu dc point ts = .goesOn := by
+  induction ts with
+  | nil => right; rfl
+  | cons t rest ih =>
+    obtain ⟨k0, r0⟩ := t
+    have hrest : ∀ k e, (k, some e) ∈ rest → isInterrupt hu e = true := fun k e hm => h k e (List.mem_cons_of_mem _ hm)
+    have hd : drainAtInterrupt hu dc rest = .interrupted := by
+      unfold drainAtInterrupt
+      cases dc <;> simp [firstFailure_none_of_no_failure hu rest hrest]
+    cases r0 with
+    | none =>
+      by_cases hp : point k0 = true
+      · left; simp [eagerRun, hp, hd]
+      · simpa [eagerRun, hp] using ih hrest
+    | some e0 =>
+      have := h k0 e0 (by simp)
+      left; simp [eagerRun, this, hd]
+
 /-! ### the context of the run ends -/
 
 theorem errorsIs_loopCtxError (rce : Bool) (c : CtxEnd) (t : Nat) :
